@@ -41,6 +41,10 @@ pub trait LayerWriter<'a, W: InnerWriterTrait>: Write {
     /// This method is responsible of recursively calling (postfix) `finalize`
     /// on inner layer if any
     fn finalize(&mut self) -> Result<(), Error>;
+
+    /// Verification hook: append this layer's hidden state (top layer first)
+    #[cfg(mla_verif)]
+    fn verif_state(&self, _out: &mut Vec<(&'static str, i64)>) {}
 }
 
 /// Trait alias for Layer Reader readable source
@@ -72,6 +76,10 @@ pub trait LayerReader<'a, R: InnerReaderTrait>: InnerReaderTrait {
     /// This method is responsible of recursively calling (postfix) `initialize`
     /// on inner layer if any
     fn initialize(&mut self) -> Result<(), Error>;
+
+    /// Verification hook: append this layer's hidden state (top layer first)
+    #[cfg(mla_verif)]
+    fn verif_state(&self, _out: &mut Vec<(&'static str, i64)>) {}
 }
 
 /// Trait to be implemented by layer for their fail-safe mode reading
@@ -83,4 +91,8 @@ pub trait LayerFailSafeReader<'a, R: Read>: Read {
     // Use a Box<Self> to be able to move out the inner value; without it, self
     // is used, which is an unsized 'dyn X' and therefore cannot be moved
     fn into_raw(self: Box<Self>) -> R;
+
+    /// Verification hook: append this layer's hidden state (top layer first)
+    #[cfg(mla_verif)]
+    fn verif_state(&self, _out: &mut Vec<(&'static str, i64)>) {}
 }
